@@ -135,6 +135,12 @@ def fast_logger():
         def getframeinfo(frame):
             return _Info
 
+        @staticmethod
+        def currentframe():
+            class _Frame:
+                f_back = None
+            return _Frame
+
     lg.inspect = _Insp
     _fast = True
 
